@@ -1727,3 +1727,27 @@ HOOK_COMMITS = [
 _pending = "check not built yet in this revision of /verif (planned, see DESIGN.md §8)"
 NOT_APPLICABLE = {}
 
+
+# Every property whose theorems are stated on a model that Tier T reaches says so in its level note: which Tie modules are
+# obligations of the check (each proves "definition regenerated from the Rust source on this run = hand-written model definition").
+TIE_WHAT = {
+    "TieCache": "tree/cache.rs", "TieLayout": "tree/layout.rs", "TieMaybeMath": "util/math.rs", "TieResolve": "util/resolve.rs",
+    "TieGrid": "grid coordinates / track counts / placements of style/grid.rs", "TieAlignment": "compute/common/alignment.rs",
+    "TieContent": "compute/common/content_size.rs", "TieAxes": "flex axis accessors", "TieGridAxes": "grid axis accessors",
+    "TieInput": "LayoutInput", "TieStyle": "style/mod.rs (Style::DEFAULT, getters)", "TieCompute": "compute/mod.rs (rounding of one node, hidden layout, compute_cached_layout)",
+    "TieLeaf": "compute/leaf.rs in full", "TieLayoutTree": "tree/traits.rs (perform_child_layout)", "TieRoot": "compute_root_layout",
+    "TieTree": "every structural method of TaffyTree", "TieFlexLine": "flexbox.rs: resolve_flexible_lengths, distribute_remaining_free_space",
+    "TieFlex": "flexbox.rs: every function that does not call the tree, compute_constants, generate_anonymous_flex_items",
+    "TieAbsPos": "grid/alignment.rs in full and flexbox.rs::perform_absolute_layout_on_absolute_children",
+    "TieBlock": "compute/block.rs in full (interaction form)", "TieTrackFns": "track sizing functions, GridTrack",
+    "TieGridInit": "grid/explicit_grid.rs in full", "TieTracks": "track_sizing.rs: initialisation, find_size_of_fr, stretch_auto_tracks, flush",
+    "TieTracks2": "track_sizing.rs: distribute_space_up_to_limits, maximise_tracks, distribute_item_space_to_*",
+    "TieTracks3": "track_sizing.rs: expand_flexible_tracks (interaction form)", "TiePlacement": "grid/placement.rs placement functions, CellOccupancyMatrix",
+}
+for _pid, _c in PROPS.items():
+    _ties = [m.split(".")[-1] for m in _c.get("modules", []) if m.split(".")[-1].startswith("Tie")]
+    if _ties and "Tier T obligations of this check" not in _c.get("level_note", ""):
+        _c["level_note"] = (_c.get("level_note", "") + " Tier T obligations of this check (each module proves, for all arguments, that the definitions "
+                            "regenerated from the Rust source on this run equal the hand-written model definitions the theorems are stated on; a "
+                            "source change in a translated function breaks one of them or is an EXTRACT-ERROR): "
+                            + "; ".join(f"{t} ({TIE_WHAT.get(t, 'see DESIGN.md §13.2')})" for t in _ties) + ".").strip()
